@@ -72,7 +72,9 @@ def has_var(a):
 
 
 class Gen:
-    def __init__(self, rng, maxdepth, sigs=(), ret=None):
+    def __init__(self, rng, maxdepth, sigs=(), ret=None, globs=()):
+        self.globs = list(globs)        # int globals: read and assigned like variables; may be shadowed once
+        self.shadowed = set()
         self.rng = rng
         self.maxdepth = maxdepth
         self.n = 0
@@ -138,6 +140,12 @@ class Gen:
             name = self.fresh('x')
             return ('decli', name, self.opd(ints)), ints + [name], bools
         r = self.rng.random()
+        if allow_decl and self.globs and r < 0.03:           # a local that shadows a global (once per function)
+            free = [g for g in self.globs if g not in self.shadowed]
+            if free:
+                name = self.rng.choice(free)
+                self.shadowed.add(name)
+                return ('decli', name, self.opd(ints)), ints, bools
         if self.sigs and r < 0.14:
             return self.call(ints, bools, allow_decl)
         if r < 0.22:
@@ -206,7 +214,7 @@ class Gen:
         return out
 
     def body(self, params, maxlen=7):
-        ss = self.block(list(params), [], self.maxdepth, False, maxlen)
+        ss = self.block(list(params) + self.globs, [], self.maxdepth, False, maxlen)
         if self.ret == 'int' and not (ss and ss[-1][0] == 'return'):
             ss.append(('return', self.opd(list(params), 1)))
         return ss
@@ -216,11 +224,13 @@ def gen_program(rng, maxdepth):
     """the entry point and 0..3 helper functions f1.. (any of them may call any helper)"""
     nf = rng.choice([0, 0, 1, 2, 2, 3])
     sigs = [('f%d' % k, rng.choice(['int', 'int', 'empty']), rng.randint(0, 3)) for k in range(1, nf + 1)]
+    globs = [('g%d' % k, rng.choice([0, 1, 5, -3, 100, 127])) for k in range(rng.choice([0, 0, 1, 2]))]
+    gnames = [g for g, _ in globs]
     prog = [('is_you', 'empty', ['a0', 'a1', 'a2'],
-             Gen(rng, maxdepth, sigs, rng.choice([None, 'empty'])).body(['a0', 'a1', 'a2']))]
+             Gen(rng, maxdepth, sigs, rng.choice([None, 'empty']), gnames).body(['a0', 'a1', 'a2']), globs)]
     for (name, rt, np) in sigs:
         params = ['p%d' % i for i in range(np)]
-        prog.append((name, rt, params, Gen(rng, max(1, maxdepth - 1), sigs, rt).body(params, 5)))
+        prog.append((name, rt, params, Gen(rng, max(1, maxdepth - 1), sigs, rt, gnames).body(params, 5)))
     return prog
 
 
@@ -314,8 +324,8 @@ def block_src(ss):
 
 
 def program_src(prog):
-    out = []
-    for (name, rt, params, ss) in prog[1:] + prog[:1]:                # helpers first, entry point last
+    out = ['int %s = %s;' % (g, v if v >= 0 else '(%d)' % v) for (g, v) in (prog[0][4] if len(prog[0]) > 4 else [])]
+    for (name, rt, params, ss) in [f[:4] for f in prog[1:] + prog[:1]]:   # helpers first, entry point last
         out.append('%s %s%s(%s) %s' % (rt, '@' if name == 'is_you' else '', name,
                                        ', '.join('int ' + q for q in params), block_src(ss)))
     return '\n'.join(out) + '\n'
@@ -396,6 +406,18 @@ def convert_func(func, mods):
             raise Outside('parameter type')
         sc.declare(str(prm.var.name), 'i')
 
+    def gidx(name):
+        if name.startswith('g') and name[1:].isdigit():
+            return int(name[1:])
+        raise Outside('variable ' + name)
+
+    def var(name):
+        """('i'|'b', index) of a local, or ('g', index) of an int global (locals shadow globals)"""
+        try:
+            return sc.lookup(name)
+        except Outside:
+            return ('g', gidx(name))
+
     def fidx(name):
         if name.startswith('f') and name[1:].isdigit():
             return int(name[1:])
@@ -408,7 +430,9 @@ def convert_func(func, mods):
                 raise Outside('char literal as int')
             return '(n %d)' % o.data
         if T is A.VariableLookup:
-            k, i = sc.lookup(str(o.var.name))
+            k, i = var(str(o.var.name))
+            if k == 'g':
+                return '(glob %d)' % i
             if k != 'i':
                 raise Outside('non-int variable in int expression')
             return '(i %d)' % i
@@ -475,7 +499,13 @@ def convert_func(func, mods):
         if isinstance(s, S.IncAssignment):
             if not isinstance(s.lookup, A.VariableLookup):
                 raise Outside('compound assignment')
-            k, i = sc.lookup(str(s.lookup.var.name))
+            k, i = var(str(s.lookup.var.name))
+            if k == 'g':
+                if s.bin_op in div_names:
+                    return '(assgdiv %d %s (glob %d) %s)' % (i, div_names[s.bin_op], i, opd(s.expr))
+                if s.bin_op not in ar_names:
+                    raise Outside('compound assignment')
+                return '(assg %d (ar %s (glob %d) %s))' % (i, ar_names[s.bin_op], i, opd(s.expr))
             if k != 'i':
                 raise Outside('compound assignment to non-int')
             if s.bin_op in div_names:
@@ -486,7 +516,14 @@ def convert_func(func, mods):
         if isinstance(s, S.Assignment):
             if not isinstance(s.lookup, A.VariableLookup):
                 raise Outside('assignment target')
-            k, i = sc.lookup(str(s.lookup.var.name))
+            k, i = var(str(s.lookup.var.name))
+            if k == 'g':
+                uc = user_call(s.expr)
+                if uc:
+                    return '(call assigng %d %d %s)' % ((i,) + uc)
+                if type(s.expr) in div_names:
+                    return '(assgdiv %d %s %s %s)' % (i, div_names[type(s.expr)], opd(s.expr.left), opd(s.expr.right))
+                return '(assg %d %s)' % (i, opd(s.expr))
             if k == 'i':
                 uc = user_call(s.expr)
                 if uc:
@@ -586,7 +623,12 @@ def impl_run(src, w):
                 break
             body.append(t.decode())
             where.append(last)
-    return ('ok', body, None, 'prog %d %d %s' % (w, STACK, sx), where)
+    import re as _re
+    gi = {}
+    for mm in _re.finditer(r'^int g(\d+) = \(?(-?\d+)\)?;', src, _re.M):
+        gi[int(mm.group(1))] = int(mm.group(2))
+    ginit = ' '.join(str(gi.get(k, 0)) for k in range(max(gi) + 1)) if gi else ''
+    return ('ok', body, None, 'prog %d %d (ginit %s) %s' % (w, STACK, ginit, sx), where)
 
 
 # ------------------------------------------------------------------------------------ model side
@@ -703,11 +745,11 @@ def prog_candidates(prog):
     for k in range(len(prog) - 1, 0, -1):                             # a helper nobody calls can go
         yield prog[:k] + prog[k + 1:]
     for k in range(len(prog) - 1, -1, -1):
-        name, rt, params, ss = prog[k]
+        name, rt, params, ss = prog[k][:4]
         for q in shrink_candidates(ss):
             if rt == 'int' and not (q and q[-1][0] == 'return'):
                 continue
-            yield prog[:k] + [(name, rt, params, q)] + prog[k + 1:]
+            yield prog[:k] + [(name, rt, params, q) + tuple(prog[k][4:])] + prog[k + 1:]
 
 
 def shrink(exe, ss, w, budget=250):
